@@ -60,7 +60,7 @@ def gen_secret(rng, cls, plain_alpha=False, allow_all_digit_type7=False, reserve
                 return {"cls": cls, "text": s, "cores": [s]}
     if cls == "type7":
         while True:
-            plain = _rand(rng, string.ascii_letters + string.digits + "!@#$%", 5, 16)
+            plain = _rand(rng, string.ascii_letters + string.digits + "!@#$%", 5, 16 if rng.random() < 0.8 else 48)
             if rng.random() < 0.2:
                 # passwords with Latin-1 bytes are legitimate type 7 too
                 j = rng.randrange(len(plain))
@@ -92,6 +92,13 @@ def gen_secret(rng, cls, plain_alpha=False, allow_all_digit_type7=False, reserve
             plain = _rand(rng, string.digits, 10, 16)
         elif plain_class == "hex":
             plain = rng.choice("23456789") + _rand(rng, "0123456789abcdef", 11, 20) + "e"
+        elif reserved_variants and rng.random() < 0.12:
+            # a $9$ secret whose plaintext happens to be a reserved word (admin, cisco, test ...)
+            from .. import load
+
+            res = load.nc().rw.default_reserved_words
+            plain = rng.choice(sorted(w for w in res if w.isalpha() and len(w) >= 4))
+            return {"cls": cls, "plain": plain, "text": None, "cores": [], "plain_class": "text", "sub": "reserved-plaintext"}
         else:
             plain = rng.choice(_NONHEX) + _rand(rng, string.ascii_letters + string.digits + "!@#%^&*_+-=", 7, 18)
         return {"cls": cls, "plain": plain, "text": None, "cores": [plain], "plain_class": plain_class or "text"}
